@@ -21,7 +21,7 @@ class RBook:
         self.ns = rng.randint(2, 5)
         self.titles = rng.sample(TITLE_POOL, self.ns)
         self.w = [rng.randint(1, 6) for _ in range(self.ns)]
-        self.h = [rng.randint(1, 6) for _ in range(self.ns)]
+        self.h = [rng.randint(1, 12) for _ in range(self.ns)]        # rows 9 -> 10 -> 11: areas whose corner rows differ in their number of digits
         if wide:
             k = rng.randrange(1, self.ns)
             self.w[k] = rng.choice([27, 53, 703, 16384])
@@ -169,8 +169,12 @@ def run(tier, seed):
         try:
             # formulas naming a sheet that does not exist make the whole translation fail, as they must: they are left out here
             sheets_known = book.sheets(omit={i for i, p in enumerate(plan) if p[2] == 'unknown'})
+            if max(book.w) > 1000:
+                raise _Skip()       # the whole-workbook routes are skipped for the 16384-column sheet (tens of thousands of methods); the entry route covers it
             whole = realcode.executor_for(realcode.load_class(realcode.translate(sheets_known, None)))
             whole_err = None
+        except _Skip:
+            whole, whole_err = None, 'SKIPPED'
         except Exception as e:  # noqa
             whole, whole_err = None, 'E' + core.exc_class(e)
         over = {}
@@ -196,7 +200,7 @@ def run(tier, seed):
                 routes.append(('override', core.outcome(lambda: over_ex.get_cell(Cell(*pos)).value),
                                lambda s, c, r: over.get((s, c, r), book.value(s, c, r))))
             elif kind != 'unknown':
-                if i == 0:
+                if i == 0 and whole_err != 'SKIPPED':
                     chk.violation({'why': 'the whole workbook does not translate although every formula translates on its own', 'impl': whole_err, 'titles': book.titles,
                                    'stream': 'whole-workbook'})
             for route, got, valuefn in routes:
@@ -264,6 +268,10 @@ def run(tier, seed):
     lexmodel.run_ref_scanners(chk, tier)
     externals(chk)
     return chk.finish()
+
+
+class _Skip(Exception):
+    pass
 
 
 class _Blank:
